@@ -360,6 +360,11 @@ Qed.
 
 End Rec.
 
+Ltac rcase H :=
+  let q1 := fresh "q" in let qb1 := fresh "qb" in let o := fresh "o" in
+  let Ea := fresh "Ea" in let Eb := fresh "Eb" in let HR := fresh "HR" in
+  destruct (rrel_inv _ _ H) as (q1 & qb1 & o & Ea & Eb & HR); rewrite Ea, Eb; clear Ea Eb.
+
 (* ---- statements, for every fuel ---- *)
 Theorem exec_sim n : forall s q qb, plain s -> wm_stmt s -> Rst q qb ->
   rrel (execA n s q) (execB n (erase s) qb).
@@ -385,4 +390,201 @@ Proof.
   intros Hwm HR. apply (list_sim (execA n) (execB n) (exec_sim n) (exec_cover_cases n) l None); assumption.
 Qed.
 
+(* ---- the program driver ---- *)
+Variable next_record : U -> nrec U V.
+Variable print_record : U -> U * option V.
+Variable skip_file : U -> U.
+
+Definition lrel (la lb : list (cstmt E)) : Prop := erase_stmts la = lb /\ wm_list None la.
+Definition body_prel (ba bb : option (list (cstmt E))) : Prop :=
+  match ba, bb with
+  | None, None => True
+  | Some la, Some lb => lrel la lb /\ action_prints (Some la) = false /\ action_prints (Some lb) = false
+  | _, _ => False
+  end.
+Definition arel (a b : action E) : Prop := a_pat a = a_pat b /\ body_prel (a_body a) (a_body b).
+Record prel (A P : program E) : Prop := mk_prel {
+  pr_begin : Forall2 lrel (p_begin A) (p_begin P);
+  pr_actions : Forall2 arel (p_actions A) (p_actions P);
+  pr_end : Forall2 lrel (p_end A) (p_end P);
+  pr_end_empty : end_is_empty (p_end A) = end_is_empty (p_end P) }.
+
+Section Driver.
+Variable n : nat.
+Notation run_listsA := (run_lists E U K V I XA ev_start ev_resume truthy nil_v forin_init forin_next bumpA funcsA n).
+Notation run_listsB := (run_lists E U K V I XB ev_start ev_resume truthy nil_v forin_init forin_next bumpB funcsB n).
+
+Lemma run_lists_sim la lb : Forall2 lrel la lb -> forall q qb, Rst q qb -> rrel (run_listsA la q) (run_listsB lb qb).
+Proof.
+  induction 1 as [|a b ta tb [Hab Hw] _ IH]; intros q qb HR; cbn [run_lists].
+  - apply rrel_same. intros _. exact HR.
+  - subst b. pose proof (exec_list_sim n a q qb Hw HR) as Hl. rcase Hl.
+    destruct o; try (apply rrel_same; exact HR0). apply IH. apply HR0. discriminate.
+Qed.
+
+Notation eval_boolA := (eval_bool E U K V I XA ev_start ev_resume truthy nil_v forin_init forin_next bumpA funcsA n).
+Notation eval_boolB := (eval_bool E U K V I XB ev_start ev_resume truthy nil_v forin_init forin_next bumpB funcsB n).
+
+Lemma eval_bool_sim p q qb : Rst q qb -> brel (eval_boolA p q) (eval_boolB p qb).
+Proof.
+  intros HR. unfold eval_bool.
+  pose proof (eval_sim (execA n) (execB n) (exec_sim n) (exec_cover_cases n) n p q qb HR) as He.
+  destruct (vrel_inv _ _ He) as [(q1 & qb1 & v & Ea & Eb & HR1) | (q1 & qb1 & o & Ea & Eb & HR1)]; rewrite Ea, Eb.
+  - split; [reflexivity|]. intros _. exact HR1.
+  - split; [reflexivity|]. cbn. intros Hne. apply HR1. congruence.
+Qed.
+
+Notation match_actionA := (match_action E U K V I XA ev_start ev_resume truthy nil_v forin_init forin_next bumpA funcsA n).
+Notation match_actionB := (match_action E U K V I XB ev_start ev_resume truthy nil_v forin_init forin_next bumpB funcsB n).
+
+Lemma match_action_sim a b flag q qb : a_pat a = a_pat b -> Rst q qb ->
+  snd (match_actionA a flag q) = snd (match_actionB b flag qb)
+  /\ brel (fst (match_actionA a flag q)) (fst (match_actionB b flag qb)).
+Proof.
+  intros Hpat HR. unfold match_action. rewrite <- Hpat.
+  destruct (a_pat a) as [|p1 [|p2 rest]].
+  - cbn. split; [reflexivity|]. split; [reflexivity|]. intros _. exact HR.
+  - cbn [fst snd]. split; [reflexivity|]. apply eval_bool_sim. exact HR.
+  - assert (H1 : brel (if flag then (q, inl true) else eval_boolA p1 q) (if flag then (qb, inl true) else eval_boolB p1 qb)).
+    { destruct flag; [split; [reflexivity|intros _; exact HR]|apply eval_bool_sim; exact HR]. }
+    destruct (brel_inv _ _ H1) as [(q1 & qb1 & b1 & Ea & Eb & HR1) | (q1 & qb1 & o & Ea & Eb & HR1)]; rewrite Ea, Eb.
+    + destruct b1.
+      * pose proof (eval_bool_sim p2 q1 qb1 HR1) as H2.
+        destruct (brel_inv _ _ H2) as [(q2 & qb2 & b2 & Ea2 & Eb2 & HR2) | (q2 & qb2 & o & Ea2 & Eb2 & HR2)]; rewrite Ea2, Eb2; cbn.
+        -- split; [reflexivity|]. split; [reflexivity|]. intros _. exact HR2.
+        -- split; [reflexivity|]. split; [reflexivity|]. cbn. intros Hne. apply HR2. congruence.
+      * cbn. split; [reflexivity|]. split; [reflexivity|]. intros _. exact HR1.
+    + cbn. split; [reflexivity|]. split; [reflexivity|]. cbn. intros Hne. apply HR1. congruence.
+Qed.
+
+Notation run_actionsA := (run_actions E U K V I XA ev_start ev_resume truthy nil_v forin_init forin_next bumpA funcsA print_record skip_file n).
+Notation run_actionsB := (run_actions E U K V I XB ev_start ev_resume truthy nil_v forin_init forin_next bumpB funcsB print_record skip_file n).
+
+Definition arrel (r : stA * list bool * out) (rb : stB * list bool * out) : Prop :=
+  snd (fst r) = snd (fst rb) /\ snd r = snd rb /\ (snd r <> OFuel V -> Rst (fst (fst r)) (fst (fst rb))).
+
+Lemma print_q_sim q qb : Rst q qb -> rrel (print_q U V XA print_record q) (print_q U V XB print_record qb).
+Proof.
+  intros (H1 & H2 & H3). unfold print_q. rewrite <- H1.
+  destruct (print_record (s_u U XA q)) as [u' [v|]]; apply rrel_same; intros _; (split; [reflexivity|]; split; [exact H2|exact H3]).
+Qed.
+
+Lemma run_actions_sim la lb : Forall2 arel la lb -> forall inrs q qb, Rst q qb ->
+  arrel (run_actionsA la inrs q) (run_actionsB lb inrs qb).
+Proof.
+  induction 1 as [|a b ta tb [Hpat Hbody] _ IH]; intros inrs q qb HR; cbn [run_actions].
+  - split; [reflexivity|]. split; [reflexivity|]. intros _. exact HR.
+  - set (flag := match inrs with b0 :: _ => b0 | [] => false end).
+    set (inrs' := match inrs with _ :: r => r | [] => [] end).
+    destruct (match_action_sim a b flag q qb Hpat HR) as [Hfl Hm].
+    destruct (match_actionA a flag q) as [ra fa], (match_actionB b flag qb) as [rb fb]. cbn [fst snd] in Hfl, Hm. subst fb.
+    destruct (brel_inv _ _ Hm) as [(q1 & qb1 & b1 & Ea & Eb & HR1) | (q1 & qb1 & o & Ea & Eb & HR1)]; rewrite Ea, Eb.
+    + destruct b1.
+      * assert (Hr : rrel
+          match a_body a with
+          | Some body => if action_prints (a_body a) then print_q U V XA print_record q1
+                         else exec_list E U V XA (execA n) body q1
+          | None => print_q U V XA print_record q1 end
+          match a_body b with
+          | Some body => if action_prints (a_body b) then print_q U V XB print_record qb1
+                         else exec_list E U V XB (execB n) body qb1
+          | None => print_q U V XB print_record qb1 end).
+        { unfold body_prel in Hbody. destruct (a_body a) as [ba|], (a_body b) as [bb|]; try contradiction.
+          - destruct Hbody as ([He Hw] & Hpa & Hpb). rewrite Hpa, Hpb. subst bb. apply exec_list_sim; assumption.
+          - apply print_q_sim. exact HR1. }
+        destruct (rrel_inv _ _ Hr) as (q2 & qb2 & o & Ea2 & Eb2 & HR2). rewrite Ea2, Eb2. clear Ea2 Eb2.
+        destruct o as [| | |v|ab| |]; try (split; [reflexivity|]; split; [reflexivity|]; cbn; intros Hne; apply HR2; congruence).
+        -- specialize (IH inrs' q2 qb2 (HR2 ltac:(discriminate))).
+           destruct (run_actionsA ta inrs' q2) as [[q3 r3] o3], (run_actionsB tb inrs' qb2) as [[qb3 rb3] ob3].
+           destruct IH as (I1 & I2 & I3). cbn in I1, I2, I3. subst rb3 ob3.
+           split; [reflexivity|]. split; [reflexivity|]. exact I3.
+        -- destruct ab; try (split; [reflexivity|]; split; [reflexivity|]; cbn; intros Hne; apply HR2; congruence).
+           split; [reflexivity|]. split; [reflexivity|]. cbn. intros _.
+              destruct (HR2 ltac:(discriminate)) as (H1 & H2 & H3). split; [cbn; rewrite H1; reflexivity|]. split; assumption.
+      * specialize (IH inrs' q1 qb1 HR1).
+        destruct (run_actionsA ta inrs' q1) as [[q3 r3] o3], (run_actionsB tb inrs' qb1) as [[qb3 rb3] ob3].
+        destruct IH as (I1 & I2 & I3). cbn in I1, I2, I3. subst rb3 ob3.
+        split; [reflexivity|]. split; [reflexivity|]. exact I3.
+    + split; [reflexivity|]. split; [reflexivity|]. exact HR1.
+Qed.
+
+Notation run_recordsA := (run_records E U K V I XA ev_start ev_resume truthy nil_v forin_init forin_next bumpA funcsA next_record print_record skip_file n).
+Notation run_recordsB := (run_records E U K V I XB ev_start ev_resume truthy nil_v forin_init forin_next bumpB funcsB next_record print_record skip_file n).
+
+Lemma run_records_sim la lb : Forall2 arel la lb -> forall m inrs q qb, Rst q qb ->
+  rrel (run_recordsA m la inrs q) (run_recordsB m lb inrs qb).
+Proof.
+  intros Hacts. induction m as [|m IH]; intros inrs q qb HR; cbn [run_records].
+  - apply rrel_same. intros _. exact HR.
+  - destruct HR as (H1 & H2 & H3). rewrite <- H1.
+    destruct (next_record (s_u U XA q)) as [u|u|u v];
+      try (apply rrel_same; intros _; split; [reflexivity|]; split; [exact H2|exact H3]).
+    assert (HR1 : Rst (mkst U XA u (s_x U XA q) (s_tr U XA q)) (mkst U XB u (s_x U XB qb) (s_tr U XB qb))).
+    { split; [reflexivity|]. split; [exact H2|exact H3]. }
+    pose proof (run_actions_sim la lb Hacts inrs _ _ HR1) as Hr.
+    destruct (run_actionsA la inrs (mkst U XA u (s_x U XA q) (s_tr U XA q))) as [[q1 r1] o1],
+             (run_actionsB lb inrs (mkst U XB u (s_x U XB qb) (s_tr U XB qb))) as [[qb1 rb1] ob1].
+    destruct Hr as (I1 & I2 & I3). cbn in I1, I2, I3. subst rb1 ob1.
+    destruct o1; try (apply rrel_same; exact I3). apply IH. apply I3. discriminate.
+Qed.
+
+Notation run_endA := (run_end E U K V I XA ev_start ev_resume truthy nil_v forin_init forin_next bumpA funcsA n).
+Notation run_endB := (run_end E U K V I XB ev_start ev_resume truthy nil_v forin_init forin_next bumpB funcsB n).
+Notation run_mainA := (run_main E U K V I XA ev_start ev_resume truthy nil_v forin_init forin_next bumpA funcsA next_record print_record skip_file n).
+Notation run_mainB := (run_main E U K V I XB ev_start ev_resume truthy nil_v forin_init forin_next bumpB funcsB next_record print_record skip_file n).
+Notation after_beginA := (after_begin E U K V I XA ev_start ev_resume truthy nil_v forin_init forin_next bumpA funcsA next_record print_record skip_file n).
+Notation after_beginB := (after_begin E U K V I XB ev_start ev_resume truthy nil_v forin_init forin_next bumpB funcsB next_record print_record skip_file n).
+
+Lemma run_end_sim A P q qb : prel A P -> Rst q qb -> rrel (run_endA A q) (run_endB P qb).
+Proof.
+  intros [Hb Ha He Hee] HR. unfold run_end.
+  pose proof (run_lists_sim _ _ He q qb HR) as Hl. rcase Hl.
+  destruct o as [| | |v|ab| |]; try (apply rrel_same; exact HR0).
+  destruct ab; try (apply rrel_same; exact HR0). apply rrel_same. intros _. apply HR0. discriminate.
+Qed.
+
+Lemma run_main_sim A P q qb : prel A P -> Rst q qb -> rrel (run_mainA A q) (run_mainB P qb).
+Proof.
+  intros [Hb Ha He Hee] HR. unfold run_main.
+  assert (Hlen : map (fun _ : action E => false) (p_actions A) = map (fun _ : action E => false) (p_actions P)).
+  { clear -Ha. induction Ha; cbn; congruence. }
+  rewrite Hlen.
+  pose proof (run_records_sim _ _ Ha n (map (fun _ => false) (p_actions P)) q qb HR) as Hr. rcase Hr.
+  destruct o as [| | |v|ab| |]; try (apply rrel_same; exact HR0).
+  destruct ab; try (apply rrel_same; exact HR0). apply rrel_same. intros _. apply HR0. discriminate.
+Qed.
+
+Lemma after_begin_sim A P q qb exited : prel A P -> Rst q qb ->
+  rrel (after_beginA A q exited) (after_beginB P qb exited).
+Proof.
+  intros HP HR. unfold after_begin.
+  assert (Hrest : rrel
+    match (if exited then (q, ONormal V) else run_mainA A q) with
+    | (q2, ONormal _) => run_endA A q2 | r => r end
+    match (if exited then (qb, ONormal V) else run_mainB P qb) with
+    | (q2, ONormal _) => run_endB P q2 | r => r end).
+  { assert (Hmid : rrel (if exited then (q, ONormal V) else run_mainA A q) (if exited then (qb, ONormal V) else run_mainB P qb)).
+    { destruct exited; [apply rrel_same; intros _; exact HR|apply run_main_sim; assumption]. }
+    rcase Hmid. destruct o; try (apply rrel_same; exact HR0). apply run_end_sim; [exact HP|]. apply HR0. discriminate. }
+  destruct HP as [Hb Ha He Hee]. rewrite <- Hee.
+  assert (Hnil : p_actions A = [] <-> p_actions P = []).
+  { clear -Ha. split; intros H; rewrite H in Ha; inversion Ha; reflexivity. }
+  destruct (p_actions A) as [|a1 ta]; destruct (p_actions P) as [|b1 tb];
+    try (destruct Hnil as [Hn1 Hn2]; first [discriminate (Hn1 eq_refl) | discriminate (Hn2 eq_refl)]).
+  - destruct (end_is_empty (p_end A)); [apply rrel_same; intros _; exact HR|exact Hrest].
+  - exact Hrest.
+Qed.
+
+Theorem exec_prog_sim A P q qb : prel A P -> Rst q qb ->
+  rrel (exec_prog E U K V I XA ev_start ev_resume truthy nil_v forin_init forin_next bumpA funcsA next_record print_record skip_file n A q)
+       (exec_prog E U K V I XB ev_start ev_resume truthy nil_v forin_init forin_next bumpB funcsB next_record print_record skip_file n P qb).
+Proof.
+  intros HP HR. unfold exec_prog.
+  pose proof (run_lists_sim _ _ (pr_begin _ _ HP) q qb HR) as Hl. rcase Hl.
+  destruct o as [| | |v|ab| |]; try (apply rrel_same; exact HR0).
+  - apply after_begin_sim; [exact HP|]. apply HR0. discriminate.
+  - destruct ab; try (apply rrel_same; exact HR0). apply after_begin_sim; [exact HP|]. apply HR0. discriminate.
+Qed.
+
+End Driver.
 End Sim.
